@@ -542,9 +542,10 @@ class FMMetrics(Metrics):  # pylint: disable=too-many-instance-attributes
         """Minimal number of children per non-leaf feature."""
         name = "Min children per feature"
         _min_children_per_feature = min(
-            sum(len(r.children) for r in feature.get_relations())
-            for feature in self._features
-            if not feature.is_leaf()
+            (sum(len(r.children) for r in feature.get_relations())
+             for feature in self._features
+             if not feature.is_leaf()),
+            default=0
         )
         result = self.construct_result(
             name=name,
